@@ -19,11 +19,36 @@ CHECK = {'level': 'exploration',
          'two sorted batches on another store. Non-trivial dense case = a 256-node subtree was read back from the store (by Prove or by a '
          'later Update); labels record the count byte actually found in the store under the subtree root. Non-trivial history = final map >= 2 keys and (a present key was deleted or two keys '
          'share >= 8 leading bits); non-trivial proof/tamper case = query set with both present and absent keys. Distinct by digest of the '
-         'full history / query set / tampering',
+         'full history / query set / tampering. FORGED MULTI-QUERY PROOFS (TestForgedEnum deterministic, TestForgedMulti rapid; every tier): '
+         'for a trie and an honest multi-key proof built from the model answers (present keys and absent probes, with their per-level sibling '
+         'hashes), 1-2 forged queries are derived from one honest query of the same proof (the anchor): a forged node 1-3 levels BELOW the '
+         'anchor node on a path extending its path (extra bitmap bits 1/11/10/111/100, set bits get a forged sibling hash: random, the empty '
+         'hash or the anchor node hash), two forged sibling leaves below it, the forged SIBLING of the anchor node, another key AT the same '
+         'path, a forged node 1-2 levels ABOVE it, a present key that is not queried honestly with a wrong/empty value one level below / at / '
+         'above its real leaf, and two independent below-forgeries under two anchors; each with the forged key sorting before and after the '
+         'anchor key, leaving the anchor key directly below the anchor node or only below the forged node; claims: inclusion of an absent key '
+         'with a forged value or with the value of the anchor leaf, wrong value for a present key, absence of a present key (shown as an empty '
+         'node, or another forged node shown on its path with the anchor key as query key), and all-true control claims; each combined with '
+         '0-3 further honest queries still pending at greater heights and 0-3 at smaller-or-equal heights when the forged branch lands (ten '
+         'count combinations with rotating picks; in the thorough tier of TestForgedEnum ALL subsets of the other candidates up to size 3), '
+         'rotating query order (forged last/first/reversed/permuted) and duplicated anchor/forged/extra queries. The sibling-hash list is '
+         'assembled by running the LIP-0039 verification loop over the forged set so that every branch finds the hash it wants in consumption '
+         'order. TestForgedEnum: one-byte keys b<<5|tail, b in every 3-6-element subset of 0..7, tails 00/0a/1f (quick: every third trie; '
+         'thorough: all 630), every present key and absent probe as anchor; TestForgedMulti: drawn tries (3-8 keys spread over the top '
+         'nibble incl. derived neighbours, or clustered pools of 8-24 keys; key lengths 1/2/4/32/38), up to 5 drawn anchors (2 for 32/38-byte '
+         'keys). Oracle: Verify(real root, real key length) true => every claim of every query holds in the reference map; the honest part '
+         'of every fourth set is verified alone as a control. Non-trivial forged case = the set contains a false claim AND passes the input '
+         'checks of Verify (mirrored in the harness for classification only), i.e. it reaches CalculateRoot; labels forged-*:stage=... give '
+         'the fraction that died in input validation vs. reached CalculateRoot (which error / root mismatch) and forged-*:forged-branch=... what '
+         'happened to the forged branch (dropped onto an honest path / honest branch dropped onto it / queued next to it / sibling merge / '
+         'reached the root alone)',
  'level_text': 'Differential test of trie.Update against an independent naive LIP-0039 root (recursion over key bits, no subtrees) after every '
                'batch of generated histories on three store kinds with reopen, plus model-free history-independence checks; completeness of '
-               'Prove/Verify with the answers checked against the map; soundness under 19 kinds of single-field tampering (a tampered proof '
-               'that still verifies must assert only true facts about the map, against the real root and key length); proof codec round trip.',
+               'Prove/Verify with the answers checked against the map; soundness under 20 kinds of tampering of honest proofs and under '
+               'systematically forged multi-query proofs (forged queries derived from honest queries of the same proof, placed below / at / '
+               'beside / above them, before and after them in key order, with 0-3 honest queries pending deeper and shallower): a tampered or '
+               'forged proof that still verifies must assert only true facts about the map, against the real root and key length; proof codec '
+               'round trip.',
  'level_note': 'Sampled, not exhaustive. Model = my reading of LIP-0039 (cross-checked by model-free two-route/rebuild comparisons and by the '
                'repository\'s own fixtures passing). Values are 32 bytes (what the state-tree caller passes) except in the event pattern.',
  'technique': 'property-based differential and metamorphic testing (rapid) against a naive LIP-0039 reference model',
@@ -36,9 +61,12 @@ CHECK = {'level': 'exploration',
  'quick': [{'pkg': 'c10', 'run': 'TestHistory|TestTwoRoutes|TestRegress', 'checks': 2000, 'timeout': 600},
            {'pkg': 'c10', 'run': 'TestEventPattern', 'checks': 600, 'timeout': 600},
            {'pkg': 'c10', 'run': 'TestLargeMaps', 'checks': 6, 'timeout': 600},
-           {'pkg': 'c10', 'run': 'TestDense', 'checks': 4, 'timeout': 600, 'shrinktime': '6s'}],
+           {'pkg': 'c10', 'run': 'TestDense', 'checks': 4, 'timeout': 600, 'shrinktime': '6s'},
+           {'pkg': 'c10', 'run': 'TestForged', 'checks': 200, 'timeout': 600, 'shrinktime': '10s'}],
  'thorough': [{'pkg': 'c10', 'run': 'TestHistory|TestTwoRoutes|TestRegress', 'checks': 20000, 'shards': 12, 'timeout': 2400},
               {'pkg': 'c10', 'run': 'TestEventPattern', 'checks': 6000, 'shards': 2, 'timeout': 2400},
               {'pkg': 'c10', 'run': 'TestLargeMaps', 'checks': 32, 'shards': 2, 'timeout': 2400},
-              {'pkg': 'c10', 'run': 'TestDense', 'checks': 40, 'shards': 2, 'timeout': 2400, 'shrinktime': '6s'}],
+              {'pkg': 'c10', 'run': 'TestDense', 'checks': 40, 'shards': 2, 'timeout': 2400, 'shrinktime': '6s'},
+              {'pkg': 'c10', 'run': 'TestForgedMulti', 'checks': 600, 'shards': 2, 'timeout': 2400, 'shrinktime': '10s'},
+              {'pkg': 'c10', 'run': 'TestForgedEnum', 'shards': 2, 'timeout': 2400}],
  'replay': [{'pkg': 'c10', 'timeout': 600}]}
